@@ -9,7 +9,7 @@ import (
 )
 
 func init() {
-	propertyRules["C04"] = []ruleFn{ruleAdmitPrep, ruleSendPResp2, ruleRespHash, ruleCommitQuorum, ruleRespMatch, ruleViewQuorum, ruleCVStore, ruleDefs}
+	propertyRules["C04"] = []ruleFn{ruleAdmitPrep, ruleSendPResp2, ruleRespHash, ruleCommitQuorum, ruleRespMatch, ruleViewQuorum, ruleCVStore, ruleViewResetCover, ruleDefs}
 	propertyExplain["C04"] = "Preconditions of PrepareResponse / (Pre)Commit / view change at every site that can perform them: a received preparation is stored only behind its admission condition (view, designated primary or non-primary, verification callback ok); the response is built only with the proposal recorded, all transactions present and after the block verifier returned true, and names the stored proposal's hash; (pre)commit only behind an M-of-N current-view preparation quorum containing the request; view change only behind an M-of-N ChangeView quorum for that view or above. Honesty of the counted validators and callback behaviour are not decided."
 	propertyRules["C06"] = []ruleFn{ruleArithN, ruleArithF, ruleArithM, ruleArithPrimary, rulePurity, rulePrimaryField}
 	propertyExplain["C06"] = "Affine/modular normal forms of the bodies of the exported N, F, M and GetPrimaryIndex: N ≡ len(Validators); F ≡ (N−1) div 3; M ≡ N − F; GetPrimaryIndex(v) ≡ r if r≥0 else r+N with r = (int(BlockIndex) − int(v)) mod N computed in signed arithmetic, hence in [0,N) for all N≥1. Purity of the four functions and single definition of PrimaryIndex. With these forms 2M−N > F and the rotation property are arithmetic facts. 32-bit builds are out of scope."
@@ -306,6 +306,24 @@ func ruleRespMatch(c *RC) *RuleResult {
 	var evs []string
 	for _, p := range purge {
 		evs = append(evs, "fn:"+p.Name)
+		// the purge store is reached for every stored response: its reach conditions mention only the ranged element
+		for _, s := range c.A.FnSites[p] {
+			if s.Kind != "write" || s.Loc != "ctx.PreparationPayloads" || s.Store != KillNil {
+				continue
+			}
+			r.Sites++
+			bad := ""
+			for _, l := range condLits(s) {
+				if !strings.Contains(l.A.S, "elem(ctx.PreparationPayloads)") {
+					bad = l.String()
+				}
+			}
+			if bad == "" {
+				r.ok(p.Name + ": mismatching responses are removed unconditionally (conditions only about the ranged entry)")
+			} else {
+				r.fail(p.Name+"/purge-cond", c.Prog.Pos(s.Node), "stored responses naming another proposal are purged only under the extra condition "+bad)
+			}
+		}
 	}
 	// every quorum-check call in the proposal receiver after the store has the purge event
 	okAll := true
